@@ -113,9 +113,14 @@ def write_replay(prop: str, name: str, payload: dict) -> str:
 def run_replay(path: str, timeout=300) -> tuple[str, str]:
     """Replays a counter-model on the real code (fresh /venv process).
     Returns (reproduced | not-reproduced | no-replay, output)."""
+    env = dict(os.environ)
+    env.pop('PYTHONPATH', None)
+    repo = os.environ.get('VERIF_REPO')
+    if repo and repo != '/repo':
+        env['PYTHONPATH'] = os.path.join(repo, 'src')      # scratch copy under test
     try:
         r = subprocess.run([VENV_PY, os.path.join(VERIF, 'tools', 'replay.py'), path],
-                           capture_output=True, text=True, timeout=timeout, cwd='/tmp')
+                           capture_output=True, text=True, timeout=timeout, cwd='/tmp', env=env)
     except subprocess.TimeoutExpired:
         return 'no-replay', 'replay timed out'
     out = (r.stdout + r.stderr)[-4000:]
@@ -132,6 +137,7 @@ def main(argv=None):
     ap.add_argument('prop')
     ap.add_argument('--tier', default=os.environ.get('VERIF_TIER', 'quick'))
     ap.add_argument('--replay')
+    ap.add_argument('--update-baseline', action='store_true')
     ap.add_argument('--jobs', type=int, default=int(os.environ.get('VERIF_JOBS', '16')))
     a = ap.parse_args(argv)
     prop, tier = a.prop, a.tier
@@ -158,10 +164,18 @@ def main(argv=None):
         write_evidence(prop, tier, seed, 'other', {'explanation': 'checker crashed: ' + traceback.format_exc()[-1500:],
                                                    'evaluations': 1, 'distinct_nontrivial': 2}, [], time.time() - t0, 0)
         return 3
-    return finish(prop, tier, seed, pm, funcs, extras, t0)
+    return finish(prop, tier, seed, pm, funcs, extras, t0, a.update_baseline)
 
 
-def finish(prop, tier, seed, pm, funcs: list[dict], extras: list[Extra], t0) -> int:
+def load_baseline(prop: str) -> dict:
+    p = os.path.join(VERIF, 'baseline', f'{prop}.json')
+    if not os.path.exists(p):
+        return {}
+    with open(p) as f:
+        return json.load(f)
+
+
+def finish(prop, tier, seed, pm, funcs: list[dict], extras: list[Extra], t0, update_baseline=False) -> int:
     known = [k for k in load_known() if k.get('property') == prop]
     known_open = {k['obligation']: k for k in known if k.get('status') == 'finding'}
     obligations = []
@@ -187,6 +201,26 @@ def finish(prop, tier, seed, pm, funcs: list[dict], extras: list[Extra], t0) -> 
                             'seconds': e.seconds, 'note': e.detail, 'model': e.witness, 'function': '', 'sha': '', 'line': 0, 'func': ''})
     violations = []
     known_lines = []
+    baseline = load_baseline(prop)
+    base_obl = baseline.get('obligations', {})
+    if update_baseline:
+        os.makedirs(os.path.join(VERIF, 'baseline'), exist_ok=True)
+        with open(os.path.join(VERIF, 'baseline', f'{prop}.json'), 'w') as f:
+            json.dump({'property': prop, 'obligations': {o['name']: {'status': o['status'], 'sha': o.get('sha', '')}
+                                                         for o in obligations}}, f, indent=0, sort_keys=True)
+        base_obl = {}
+    # vacuity guard: an obligation of the committed baseline that is no longer generated
+    # (function renamed / moved / path vanished) makes the run undecided, never green
+    if base_obl and tier in ('quick', 'thorough'):
+        have = {o['name'] for o in obligations}
+        changed_funcs = {o.get('function') for o in obligations
+                         if o['name'] in base_obl and base_obl[o['name']].get('sha') != o.get('sha', '')}
+        for name, b in base_obl.items():
+            if name not in have:
+                # renumbered duplicates after an edit of that function are tolerated when the base name survives
+                if base_name(name) in {base_name(h) for h in have}:
+                    continue
+                undecided.append(f'{name}: obligation of the committed baseline was not generated (vacuity guard)')
     for o in obligations:
         if o['status'] == 'failed':
             if o['name'] in known_open:
@@ -194,7 +228,13 @@ def finish(prop, tier, seed, pm, funcs: list[dict], extras: list[Extra], t0) -> 
             else:
                 violations.append(o)
         elif o['status'] in ('unknown',):
-            undecided.append(f"{o['name']}: solver returned unknown")
+            if o['name'] in known_open:
+                known_lines.append((o, known_open[o['name']]))
+                continue
+            b = base_obl.get(o['name']) or base_obl.get(base_name(o['name']))
+            o['regressed'] = bool(b and b.get('status') == 'discharged' and b.get('sha') != o.get('sha', ''))
+            o['undecided_by_solver'] = True
+            violations.append(o)          # decided below: replay / regression rule / undecided
         elif o['status'] == 'error':
             crash.append(f"{o['name']}: {o.get('note', '')}")
     # bounded stand-ins report violations as well (replayed by construction: they ran the real code)
@@ -230,6 +270,17 @@ def finish(prop, tier, seed, pm, funcs: list[dict], extras: list[Extra], t0) -> 
             status, out = 'no-replay', ''
         payload['replay_status'] = status
         payload['replay_output'] = out
+        if o.get('undecided_by_solver'):
+            payload['solver_output'] = 'unknown (both solvers, all seeds); ' + str(o.get('note') or '')
+            if status != 'reproduced' and not o.get('regressed'):
+                # solver could not decide, no failing input on the real code, and the function is
+                # unchanged w.r.t. the committed baseline: undecided, never a violation
+                undecided.append(f"{o['name']}: solver returned unknown")
+                write_replay(prop, o['name'], payload)
+                continue
+            if status != 'reproduced':
+                payload['regression'] = ('obligation was discharged on the committed baseline; the function source changed '
+                                         'and no solver can discharge it any more')
         write_replay(prop, o['name'], payload)
         suffix = '' if status == 'reproduced' else ' no-failing-input-found'
         vio_lines.append(f'VIOLATION property={prop} replay={path}{suffix}')
@@ -248,7 +299,7 @@ def finish(prop, tier, seed, pm, funcs: list[dict], extras: list[Extra], t0) -> 
         secs[b][0] += 1
         secs[b][1] += o.get('seconds', 0) or 0
     level = getattr(pm, 'LEVEL', 'proof')
-    fully = (n_dis + n_known == n_ob) and not undecided and not crash and not violations and n_ob > 0
+    fully = (n_dis + n_known == n_ob) and not undecided and not crash and not vio_lines and n_ob > 0
     run_level = level if fully else 'other'
     if n_known and run_level == 'proof':
         # obligations listed as known findings are not discharged: proof level requires discharged == obligations
@@ -267,7 +318,7 @@ def finish(prop, tier, seed, pm, funcs: list[dict], extras: list[Extra], t0) -> 
         'trusted_base': list(getattr(pm, 'TRUSTED', [])),
         'explanation': getattr(pm, 'EXPLANATION', '') + (
             f' This run: {n_dis}/{n_ob} obligations discharged, {n_known} known findings, '
-            f'{len(violations)} violations, {len(undecided)} undecided.'),
+            f'{len(vio_lines)} violations, {len(undecided)} undecided.'),
         'backends': {b: {'obligations': c, 'seconds': round(s, 3)} for b, (c, s) in secs.items()},
         'functions_under_contract': [
             {'function': f['qualname'], 'label': f['label'], 'file': os.path.relpath(f['file'], '/repo') if f['file'] else '',
@@ -287,9 +338,9 @@ def finish(prop, tier, seed, pm, funcs: list[dict], extras: list[Extra], t0) -> 
     for f in funcs:
         notes.update(f.get('notes', []))
     assumptions = sorted(notes) + list(getattr(pm, 'ASSUMPTIONS', []))
-    write_evidence(prop, tier, seed, run_level, cov, assumptions, time.time() - t0, len(violations))
+    write_evidence(prop, tier, seed, run_level, cov, assumptions, time.time() - t0, len(vio_lines))
     print(f'{prop} [{tier}]: {n_dis}/{n_ob} obligations discharged; known findings {n_known}; '
-          f'violations {len(violations)}; undecided {len(undecided)}; crashes {len(crash)}; '
+          f'violations {len(vio_lines)}; undecided {len(undecided)}; crashes {len(crash)}; '
           f'bounded checks {len(bounded)}; {time.time() - t0:.1f}s')
     if crash:
         for c in crash:
